@@ -99,6 +99,13 @@ def run(ck):
     ck.assumptions = ["usize is 64 bits wide: sums of two u32-derived values do not overflow (debug builds would panic, release builds rely on this)",
                       "structural necessary conditions only"]
     c = crate("sc", E)
+    _rs = {}
+
+    def range_summary(path):
+        if path not in _rs:
+            bs = c.get_all(path)
+            _rs[path] = rules.range_helper_param(Fn(bs[0])) if len(bs) == 1 else None
+        return _rs[path]
     cg = CallGraph([c])
 
     # ---- b. bounds-checked slicing of linear memory
@@ -118,7 +125,7 @@ def run(ck):
         if sites:
             nfun += 1
         for n, site in enumerate(sites):
-            ok, d = rules.bounds_proved(f, mem[0], site)
+            ok, d = rules.bounds_proved(f, mem[0], site, summary=range_summary)
             nsites += 1
             ck.ob("BOUNDS", p, "memory-slice#%d" % n, ok, d, f.loc(site[0]))
         # element indexing / unchecked access of memory is not an accepted idiom
